@@ -332,6 +332,15 @@ class BatchAxis:
                         self.guarded_slices.add(id(n_))
                 if par is not None and par.get("k") == "Match" and par.get("src", "Normal") == "Normal" and len(par["arms"]) >= 2:
                     self.guarded_slices.add(id(n_))
+        # raw memory-order accessors that rules/layout.py finds dominated by a layout test (or consumed without regard to
+        # positions) do not make the result depend on the layout either
+        try:
+            from . import layout as _layout
+            for s_ in _layout.sites(fn):
+                if s_.get("verdict") == "ok":
+                    self.guarded_slices.add(id(s_["node"]))
+        except Exception:
+            pass
         env = dict(batch_params)
         self.out = set(out_params)
         self.depth = depth
